@@ -617,8 +617,24 @@ package ipfscluster
 
 // ---- C17: "a removed peer stops itself": the peer-watch loop shuts this peer down - marked as removed - exactly when a
 // successful peerset listing does not contain it ----
+// Shutdown's effect on the components is assumed (modifies *); what IS checked in its body: a peer that leaves on
+// shutdown asks for the removal of ITSELF and is marked removed when it does - that mark is what makes it discard its
+// consensus data after the consensus component has stopped ("a removed peer ... discards its consensus data")
+//@ interface Consensus.Clean(ctx)
+//@   modifies *
+// (stopping a component: assumed, its effect unconstrained)
+//@ interface Component.Shutdown(ctx)
+//@   modifies *
+// (best-effort peerstore save: assumed, its effect unconstrained)
+//@ extern pstoremgr.Manager.SavePeerstoreForPeers(peers)
+//@   modifies *
 //@ func (c *Cluster) Shutdown
-//@   opts trusted
+//@   property C17
+//@   opts assume_post
+//@   at_call Consensus.RmPeer assert [a-leaving-peer-removes-itself-and-is-marked-removed] p == c.id && c.removed
+//@   at_call Consensus.Clean assert [only-a-removed-peer-that-was-ready-discards-its-data] c.removed && c.readyB
+//@   loop 1 (range c.apis)
+//@   loop 2 (range c.informers)
 //@   modifies *
 // (C18: the shutdown it triggers must run in its own goroutine - watchPeers still holds the shutdown lock Shutdown takes)
 //@ guards Cluster.shutdownLock: removed
